@@ -70,13 +70,18 @@ impl Backend for Typescript {
             let (pdus, warnings): (String, Vec<CompilerError>) =
                 tlds.into_iter()
                     .fold((String::new(), vec![]), |mut acc, tld| {
+                        let subject = tld.clone();
                         match self.generate(tld) {
                             Ok(s) => {
                                 acc.0.push('\n');
                                 acc.0.push_str(&s);
                                 acc
                             }
-                            Err(e) => {
+                            Err(mut e) => {
+                                // a warning always names the definition it is about
+                                if e.top_level_declaration.is_none() {
+                                    e.top_level_declaration = Some(Box::new(subject));
+                                }
                                 acc.1.push(e.into());
                                 acc
                             }
